@@ -7,7 +7,7 @@
 #
 # Object rules come from the main Makefile ($(B)/asan/sim/%.o, $(B)/asan/harness/%.o,
 # $(B)/asan/repo/{core,fitter,cinter}/%.o); nothing is defined twice here.
-HIST_WRAPS := fopen64 fopen remove unlink rename access fileno ftruncate64 ftruncate realloc ffrprt open open64 creat read write pread pwrite pread64 pwrite64 lseek lseek64 close fsync fdatasync cholmod_l_start
+HIST_WRAPS := fopen64 fopen remove unlink rename access fileno ftruncate64 ftruncate realloc ffrprt open open64 creat read write pread pwrite pread64 pwrite64 lseek lseek64 close fsync fdatasync stat stat64 lstat cholmod_l_start
 
 # The repository's C++ objects are linked as copies in which the references to operator new / new[]
 # (_Znwm, _Znam) are renamed to psv_hook_Znwm / psv_hook_Znam (defined in harness/psv_hist_c18.inc):
